@@ -37,13 +37,13 @@ PROPERTIES = {
         # soundness contracts (written for C05) are part of what C08 depends on
         borrow=dict(modules=["lifting"], match=["supportInterval", "unionOfSupports", "supmin", "supmax", "support of", "monotonicDistributionFunction"]),
         level="proof",
-        claim="bound extraction from requirement syntax is sound for every comparison operator and operand shape; relations for pruning are inferred only from hard requirements on the initial scene; relative-heading feasibility over-approximates and the pruned region is a subset of the base region at the same height with the same preferred orientation; erosion/termination arithmetic; the buffered view region used by visibility pruning contains every point within the buffer distance (box path; voxel path per axis) and the buffer distance covers radius + full 3-D offset",
+        claim="bound extraction from requirement syntax is sound for every comparison operator and operand shape; relations for pruning are inferred only from hard requirements on the initial scene; relative-heading feasibility over-approximates and the pruned region is a subset of the base region at the same height with the same preferred orientation; erosion/termination arithmetic; the buffered view region used by visibility pruning contains every point within the buffer distance (box path; voxel path per axis) and the buffer distance covers radius + full 3-D offset; for a position that is a function of the sampled point (`on <oriented region>`: p + offset(p), orientation field[p]) containment pruning, visibility pruning and their sequence leave position, offset and orientation functions of ONE random draw, taken in the pruned region (ghost model of Samplable.sample); matchPolygonalField raises nothing for any shape of the field lookup's arguments and matches exactly when the lookup's single argument IS the position object",
         note="shapely buffer/intersection assumed exact set operations; equality of distributions with/without pruning not reached (only: no feasible position lost, none added)",
         assumptions=["matchConstant/matchValue modelled (eval in the namespace)"],
         not_reached=[
             "distribution equality over shapely results",
-            "`on <oriented region>`: after containment/visibility pruning the orientation (parentOrientation, contact offset) is still a function of the UNPRUNED inner point while the position is conditioned to a new point (reproduced on the real code, no contract yet)",
-            "matchPolygonalField compares `orientation.arguments == (position,)` with `==` on random values: RandomControlFlowError when compiling `new Object on R` with R oriented by a PolygonalVectorField in 3D mode (reproduced, no contract yet)",
+            "point-function contracts (pruneContainment/pruneVisibility/prune[point-functions]): checkConditionedCycle abstract (no cycle), one object, polygonal regions; values computed from the sampled point other than the offset and the orientation (e.g. a user expression sharing the point) are covered only through the same-draw argument",
+            "matchPolygonalField[random-arguments]: the decorator plumbing behind isMethodCall/isFunctionCall (underlyingFunction) is abstract; normalizeAngle / typechecked wrappers of the heading not enumerated",
             "voxel path of _bufferOverapproximate: set containment is checked as its projection on one axis (cube structuring element), with trimesh voxelization trusted to contain the mesh after one dilation",
         ],
     ),
